@@ -64,7 +64,11 @@ func NewHttpContext(w http.ResponseWriter, r *http.Request) *HttpContext {
 	go func() {
 		select {
 		case <-c.ctx.Done():
+			// wait for a response that is being written: releasing the handler while
+			// Write is still using the ResponseWriter is a data race inside net/http
+			c.mu.Lock()
 			c.Flush()
+			c.mu.Unlock()
 			c.Emit("close")
 		case <-c.done:
 			c.Emit("close")
